@@ -93,78 +93,67 @@ class Ledger:
         return None
 
     def _prepare(self):
-        b, cx = self.b, self.cx
+        b = self.b
         for bb, t in b.calls():
             w = self.call_weight(bb, t)
             if w is not None:
                 self._callw[bb] = w
                 self.prims += 1
-        # edge weights on switches
         for bb in range(b.n):
-            t = b.term(bb)
-            if t['k'] != 'switch':
+            if b.term(bb)['k'] != 'switch':
                 continue
-            d = U.def_rvalue(b, t['discr'])
-            if not d:
-                continue
-            if d[0] == 'call' and U.callee_name(d[2]) == 'pay' and 'debt::Debt' in d[2]['callee'].get('path', ''):
-                writer = self._writer_side(d[2])
-                for succ in b.term_succs(bb, False):
-                    v = U.switch_edge_value(b, bb, succ)
-                    r = U.bool_outcome(b, bb, v) if v is not None else None
-                    if r is None:
-                        continue
-                    truth = r[1]
-                    if writer:
+            for succ in b.term_succs(bb, False):
+                evs = self._edge_events(bb, succ)
+                if evs:
+                    self._edge[(bb, succ)] = evs
+        self.prims += len({e[0] for evs in self._edge.values() for e in evs})
+
+    def _edge_events(self, bb, succ):
+        """[(key, weight, note, flag)] — each key is applied at most once per path"""
+        b = self.b
+        out = []
+        for f in U.edge_facts(b, bb, succ):
+            if f[0] == 'bool' and f[1] and f[1][0] == 'call':
+                t = f[1][2]
+                cbb = f[1][1]
+                truth = f[2]
+                nm = U.callee_name(t)
+                if nm == 'pay' and 'debt::Debt' in t['callee'].get('path', ''):
+                    if self._writer_side(t):
                         if truth:
-                            self._edge[(bb, succ)] = (-1, 'a pre-paid count is donated to the paid slot', None)
+                            out.append((('pay', cbb), -1, 'a pre-paid count is donated to the paid slot', None))
+                    elif truth:
+                        out.append((('pay', cbb), 0, 'debt returned: pointer no longer protected', 'paid_back'))
                     else:
-                        if truth:
-                            self._edge[(bb, succ)] = (0, 'debt returned: pointer no longer protected', 'paid_back')
-                        else:
-                            self._edge[(bb, succ)] = (+1, 'a writer paid our debt: we own a count', None)
-                self.prims += 1
-            elif d[0] == 'call' and U.callee_name(d[2]) in ('is_ok', 'is_err'):
-                for o in b.origins(d[2]['args'][0]):
-                    if o[0] == 'call' and U.is_atomic_callee(b.term(o[1])['callee']):
-                        s = U.Site(b, o[1], b.term(o[1]))
-                        if s.cls == 'control' and s.op.startswith('compare_exchange'):
-                            self._handover_edges(bb, U.callee_name(d[2]) == 'is_ok')
-            elif d[0] == 'rv' and d[3]['k'] == 'discr' and not d[3]['place']['proj']:
-                l = d[3]['place']['local']
-                defs = [x for x in b.assigns().get(l, []) if x[2] == 'call']
-                for (cbb, i, kind, ct, proj) in defs:
+                        out.append((('pay', cbb), +1, 'a writer paid our debt: we own a count', None))
+                elif nm in ('is_ok', 'is_err'):
+                    for o in b.origins(t['args'][0]):
+                        if o[0] == 'call' and U.is_atomic_callee(b.term(o[1])['callee']):
+                            s = U.Site(b, o[1], b.term(o[1]))
+                            if s.cls == 'control' and s.op.startswith('compare_exchange') and truth == (nm == 'is_ok'):
+                                out.append((('handover', o[1]), -1, 'replacement handed over to the reader', None))
+            elif f[0] == 'variant':
+                l, idx = f[1], f[2]
+                for o in b.origins(l):
+                    if o[0] != 'call':
+                        continue
+                    ct = b.term(o[1])
                     nm = U.callee_name(ct)
                     if U.is_atomic_callee(ct['callee']):
-                        s = U.Site(b, cbb, ct)
-                        if s.cls == 'control' and s.op.startswith('compare_exchange'):
-                            for v, tb in t['targets']:
-                                if v == 0:
-                                    self._edge[(bb, tb)] = (-1, 'replacement handed over to the reader', None)
-                                    self.prims += 1
+                        s = U.Site(b, o[1], ct)
+                        if s.cls == 'control' and s.op.startswith('compare_exchange') and idx == 0:
+                            out.append((('handover', o[1]), -1, 'replacement handed over to the reader', None))
                     elif nm == 'take' and ct['args']:
-                        r, f = b.ref_path(ct['args'][0])
-                        ff = [x for x in f if x['k'] == 'field']
-                        if ff and ff[-1]['adt'] == PROT and ff[-1]['name'] == 'debt' and r == ('arg', 1):
-                            for v, tb in t['targets']:
-                                if v == 0:
-                                    self._edge[(bb, tb)] = (+1, 'self owns its count (debt is None): entry credit', None)
-                                    self.prims += 1
-                    elif nm in ('confirm_helping', 'confirm') and ct['callee'].get('krate') == 'arc_swap':
-                        for v, tb in t['targets']:
-                            if v == 1:
-                                self._edge[(bb, tb)] = (+1, 'Err(replacement): a count handed over by a helper', None)
-                                self.prims += 1
+                        r, fl = b.ref_path(ct['args'][0])
+                        ff = [x for x in fl if x['k'] == 'field']
+                        if ff and ff[-1]['adt'] == PROT and ff[-1]['name'] == 'debt' and r == ('arg', 1) and idx == 0:
+                            out.append((('entry', o[1]), +1, 'self owns its count (debt is None): entry credit', None))
+                    elif nm in ('confirm_helping', 'confirm') and ct['callee'].get('krate') == 'arc_swap' and idx == 1:
+                        out.append((('handover_in', o[1]), +1, 'Err(replacement): a count handed over by a helper', None))
+        return out
 
     def _handover_edges(self, bb, is_ok):
-        b = self.b
-        t = b.term(bb)
-        f = [tb for v, tb in t['targets'] if v == 0]
-        tr = t['otherwise']
-        if f:
-            succ = tr if is_ok else f[0]
-            self._edge[(bb, succ)] = (-1, 'replacement handed over to the reader', None)
-            self.prims += 1
+        pass
 
     def _writer_side(self, pay_term):
         b = self.b
@@ -240,14 +229,16 @@ def user_call_kind(t):
         if c.get('name') == 'dec':
             return 'pointee destructor (RefCnt::dec)'
         return None
+    if (c.get('trait') or '').startswith('arc_swap::'):
+        return None  # trait of this crate (sealed): its impls are analysed as transitive callees
     if c.get('self_is_param') or c.get('key') in ('<fnptr>', '<indirect>'):
         tr = c.get('trait_pretty', '')
         if tr.endswith(('ops::Fn', 'ops::FnMut', 'ops::FnOnce')):
             return 'user closure'
         if tr.endswith('clone::Clone'):
             return 'Clone of a user type'
-        if tr.endswith('ops::Deref') or tr.endswith('borrow::Borrow'):
-            return 'Deref of a user type'
+        if tr.endswith('ops::Deref') or tr.endswith('borrow::Borrow') or tr.endswith('ops::DerefMut'):
+            return None  # accessor of a smart pointer: trusted not to panic (not in the property's list of user code)
         return 'trait method on a type parameter (%s)' % tr
     if c.get('name') == 'drop' and ('mem::ManuallyDrop' in c.get('path', '') or c.get('path', '').endswith('mem::drop')):
         tys = t.get('arg_tys') or ['']
@@ -269,10 +260,10 @@ def analyse(fx, b, col, rule='LEDGER', unwind_rule='LEDGER-UNWIND', declared_exi
     e0 = lg.entry()
     start = (0, e0[0], False)
     # DFS over acyclic normal paths
-    stack = [(0, e0[0], False, {0: e0[0]}, (0,))]
+    stack = [(0, e0[0], False, {0: e0[0]}, (0,), frozenset())]
     npaths = 0
     while stack:
-        bb, bal, paid, seen, path = stack.pop()
+        bb, bal, paid, seen, path, applied = stack.pop()
         npaths += 1
         if npaths > 200000:
             col.fail(rule, '%s|path explosion' % fn, 'more than 200000 paths')
@@ -293,6 +284,11 @@ def analyse(fx, b, col, rule='LEDGER', unwind_rule='LEDGER-UNWIND', declared_exi
             exp = 0
             if declared_exit is not None:
                 exp = declared_exit(b, path)
+            else:
+                # a function that passes a received hand-over on to its caller inside Err(..)
+                for key in applied:
+                    if key[0] == 'handover_in' and ('call', key[1]) in b.origins(0) and b.local_ty(0).startswith('std::result::Result<'):
+                        exp += 1
             if bal != exp:
                 viol.append((b.loc(bb), 'path to return ends with balance %+d (expected %+d)' % (bal, exp), path))
             continue
@@ -333,11 +329,12 @@ def analyse(fx, b, col, rule='LEDGER', unwind_rule='LEDGER-UNWIND', declared_exi
             if k == 'call' and (t['callee'].get('trait') or '').endswith('ref_cnt::RefCnt'):
                 kind = user_call_kind(t)
                 kind = ('direct: ' + kind) if kind else None
-            elif k == 'call' and (t['callee'].get('trait') or '').startswith('arc_swap::strategy::sealed') and t['callee'].get('self_is_param'):
+            elif k == 'call' and (t['callee'].get('trait') or '').startswith('arc_swap::') and not t['callee'].get('resolved') \
+                    and not (t['callee'].get('trait') or '').endswith('ref_cnt::RefCnt'):
                 # sealed strategy trait: all impls are in this crate
                 nm = t['callee'].get('name')
                 impls = [x for x in lib.bodies if x.name == nm and (x.j.get('impl_trait') or '') == t['callee'].get('trait')]
-                kind = ('transitive: strategy method %s can reach user code' % nm) if any(x.key in mu for x in impls) else None
+                kind = ('transitive: %s (trait of this crate) can reach user code' % nm) if any(x.key in mu for x in impls) else None
             if kind and k == 'call' and U.callee_name(t) == 'wait_for_readers' and _exclusive_cell(b, t):
                 # the cell is reached through get_mut (exclusive access): no reader of this cell can be in its
                 # intent window, so the helper never produces a replacement, and the phantom copy dropped at the
@@ -389,10 +386,13 @@ def analyse(fx, b, col, rule='LEDGER', unwind_rule='LEDGER-UNWIND', declared_exi
         for succ in b.term_succs(bb, unwind=False):
             nb = after
             npaid = paid
-            ew = lg._edge.get((bb, succ))
-            if ew:
-                nb += ew[0]
-                if ew[2] == 'paid_back':
+            napplied = applied
+            for (key, w, note, flag) in lg._edge.get((bb, succ), ()):
+                if key in napplied:
+                    continue
+                napplied = napplied | {key}
+                nb += w
+                if flag == 'paid_back':
                     npaid = True
             if succ in seen:
                 if seen[succ] != nb:
@@ -400,7 +400,7 @@ def analyse(fx, b, col, rule='LEDGER', unwind_rule='LEDGER-UNWIND', declared_exi
                 continue
             ns = dict(seen)
             ns[succ] = nb
-            stack.append((succ, nb, npaid, ns, path + (succ,)))
+            stack.append((succ, nb, npaid, ns, path + (succ,), napplied))
     # report
     if viol:
         seen_msgs = set()
